@@ -16,6 +16,9 @@ EXCEPTIONS = {
     ('upipe_trickp_sub_input', 'leak', 'uref'):
         'upipe_trickp_sub_process returns false only when rate.num == 0 || rate.den == 0, which upipe_trickp_sub_input '
         'has just tested false on this branch (lib/upipe-modules/upipe_trickplay.c:219-227); the correlation is through memory and across the call',
+    ('upipe_rtp_h264_output_nalu', 'leak', 'uref_block_split()'):
+        'the loop ends (size == 0) only after an iteration with last_fragment true, in which no split is made; when a split was made size > split_size '
+        'so the loop continues and the split-off part becomes the next uref (lib/upipe-modules/upipe_rtp_h264.c:170-227): arithmetic correlation',
 }
 
 
